@@ -7,8 +7,8 @@ DEPS = ["harness/c12_io_common.hpp"]
 # PART -> (name, shards, floor of cases quick/thorough)
 PARTS = [
     (0, "bmp", 4, 80), (1, "pnm", 4, 65), (2, "targa", 4, 80), (3, "png8", 6, 90), (4, "png16", 6, 90),
-    (5, "bits_png_pnm", 6, 120), (6, "tiff_a", 8, 170), (7, "tiff_b", 8, 200), (8, "tiff_c", 6, 100),
-    (9, "tiff_d", 6, 80), (10, "bits_tiff", 6, 200), (11, "jpeg", 2, 18),
+    (5, "bits_png_pnm", 6, 120), (6, "tiff_a", 8, 170), (7, "tiff_b", 8, 150), (8, "tiff_c", 6, 100),
+    (9, "tiff_d", 6, 80), (10, "bits_tiff", 6, 200), (11, "jpeg", 2, 18), (12, "tiff_e", 6, 150),
 ]
 
 PROBES = [
